@@ -12,10 +12,11 @@ import threading
 
 def corpus_forms():
     """name -> md text; chosen to touch every shared cache / mutated object the property's anchors list
-    (f1: nested repeats with references, action-type questions, an entity *update* declaration; f3: an entity *create* declaration ...)"""
+    (f1: nested repeats with references, action-type questions, an entity *update* declaration, a last-saved default, a date question
+    whose default "../n - 4" is also the default of an integer question of f2; f2: translations, a last-saved default; f3: an entity *create* declaration ...)"""
     f1 = """| survey |
-| | type | name | label | relevant | calculation | repeat_count |
-| | integer | n | N | | | |
+| | type | name | label | relevant | calculation | repeat_count | default |
+| | integer | n | N | | | | ${last-saved#n} |
 | | begin repeat | r1 | R1 | | | ${n} |
 | | text | a | A ${n} | | | |
 | | begin group | g | G | ${a} != '' | | |
@@ -28,16 +29,18 @@ def corpus_forms():
 | | end repeat | | | | | |
 | | start-geopoint | sg | | | | |
 | | background-audio | ba | | | | |
+| | date | dd | DD | | | | ../n - 4 |
 | entities |
 | | dataset | entity_id | update_if |
 | | trees | ${n} | ${n} > 0 |
 """
     f2 = """| survey |
-| | type | name | label::English (en) | label::French (fr) | hint::English (en) | guidance_hint::French (fr) | constraint | constraint_message::French (fr) |
-| | text | q1 | Q1 <b> & | Q1 fr | h1 | g1 | . != 'a' | non |
+| | type | name | label::English (en) | label::French (fr) | hint::English (en) | guidance_hint::French (fr) | constraint | constraint_message::French (fr) | default |
+| | text | q1 | Q1 <b> & | Q1 fr | h1 | g1 | . != 'a' | non | ${last-saved#q1} |
 | | select_one L or_other | s1 | S1 | S1 fr | | | | |
 | | select_multiple L | s2 | S2 | S2 fr | h2 | | | |
 | | image | p1 | P1 | | | g3 | | |
+| | integer | hy | HY | | | | | | ../n - 4 |
 | choices |
 | | list_name | name | label::English (en) | label::French (fr) | image::English (en) |
 | | L | l1 | L1 | L1 fr | l1.png |
